@@ -155,6 +155,14 @@ func (w WLSpec) Build(wl *spg.WordList) (spg.WLRecipe, *spg.WordList, error) {
 			}
 			return vals[int(p.String()[0]-'a')], bits
 		}
+	case "customnan", "custominf", "customneg":
+		// a caller-written separator function that returns a fixed string and an odd entropy statement (NaN, +Inf, negative)
+		val := ""
+		if len(w.SepVals) > 0 {
+			val = FromCPs(w.SepVals[0])
+		}
+		ent := map[string]float64{"customnan": math.NaN(), "custominf": math.Inf(1), "customneg": -3.5}[w.Sep]
+		r.SeparatorFunc = func() (string, spg.FloatE) { return val, spg.FloatE(ent) }
 	case "custom0":
 		// a caller-written separator function: a fresh random string from SepRecipe each call, but it claims no entropy
 		cr := w.SepRecipe.Recipe()
